@@ -39,7 +39,7 @@ from happysimulator.core.temporal import Duration, Instant  # noqa: E402
 from happysimulator.distributions.constant import ConstantLatency  # noqa: E402
 from happysimulator.distributions.latency_distribution import LatencyDistribution  # noqa: E402
 
-from simkit.c08_refpolicy import RefBalk, RefCoDel, build_ref  # noqa: E402
+from simkit.c08_refpolicy import RefBalk, RefCoDel, RefDeadline, build_ref  # noqa: E402
 from simkit.world import InvalidScenario, Violation  # noqa: E402
 
 TICK_NS = 15_625_000          # 1/64 s
@@ -425,6 +425,9 @@ class QRStage(Stage):
                         f"(capacity {self.Q.policy.capacity}); the policy object passed in is not used")
             self.policy = self.Q.policy      # an unbounded FIFO swapped for an unbounded FIFO: no observable difference
             ctx.hit("probe.equivalent_default_policy_substituted")
+        if self.kind in ("shifted", "reneging") and self.Q.policy is policy and \
+                not (cfg["policy"]["type"] == "fifo" and cfg["policy"].get("cap") is None):
+            ctx.hit("probe.configured_policy_on_shifted_or_reneging")
         self.extra_sink = extra_sink
         self.last_acc = self.last_drop = 0
         self.last_rej = self.last_ren = self.last_done = 0
@@ -532,6 +535,8 @@ class QRStage(Stage):
         rid = self.rid_of(ev)
         ctx = self.ctx
         self.inst.add("offer")
+        if self.kind == "shifted" and not self.state and self.sched_cap(ctx.now_ns) != self.sched_cap(0):
+            ctx.hit("probe.shift_first_arrival_in_later_shift")
         ctx.arrive(rid, self.idx, self.cls)
         if rid in self.state:
             raise V("conserve", self.cls, "offered-twice", f"rid {rid} offered again (state {self.state[rid]})")
@@ -587,7 +592,11 @@ class QRStage(Stage):
 
     def _deliver(self, ev):
         pl = ev.payload
-        rid = pl.context.get("rid") if pl is not None else None
+        if pl is None:
+            # the queue's answer to a poll that found nothing (kept for protocols that answer every poll)
+            self.ctx.hit("probe.empty_poll_answer")
+            return
+        rid = pl.context.get("rid")
         exp = self.expect_deliver.popleft() if self.expect_deliver else None
         if rid != exp:
             raise V("order", self.pcls, "dequeued-item-ne-policy-order",
@@ -734,6 +743,9 @@ class QRStage(Stage):
                             detail = "after-enqueue-into-empty-queue" + ("-notified" if self.n_notify else "-not-notified")
                         else:
                             detail = "after-enqueue-behind-backlog"
+                            if isinstance(self.ref, RefDeadline) and \
+                                    sum(1 for it in self.ref.items if it["deadline_ns"] >= prev_ns) == 1:
+                                detail += "-of-expired-items"   # only dead entries were ahead of it
                     else:
                         detail = "idle"
                     if self.kind == "shifted" and self.F.current_capacity != limit:
@@ -979,6 +991,8 @@ class BatchStage(Stage):
         if F.buffer_depth == 0:
             if len(self.buf) < self.size:
                 ctx.hit("probe.batch_flushed_below_size")
+            if self.size == 1 and self.timeout > 0:
+                ctx.hit("probe.batch_of_one_with_timeout_processed_at_once")
             self._flush()
         elif F.buffer_depth != len(self.buf):
             raise V("conserve", self.cls, "buffer-ne-ledger", f"component buffers {F.buffer_depth}, ledger {len(self.buf)}")
